@@ -11,6 +11,8 @@
 (*   SetRepeat     pixman_image_set_repeat                                                  *)
 (*   Fetch         pixman_image_composite32 (OP_SRC, image -> a8r8g8b8), as source or as    *)
 (*                 component-alpha mask of a solid white source (both show the samples)     *)
+(*   FetchWide     the same through the wide (floating point) pipeline: DISJOINT_OVER onto  *)
+(*                 a cleared a8r8g8b8 destination, SRC onto rgba_float / a2r10g10b10        *)
 (*                                                                                          *)
 (* Units: positions are 16.16 fixed point integers (One = 65536).  Pixel (x, y) of an       *)
 (* image covers [x, x+1) x [y, y+1); its centre is x + 1/2.  Pixels are <<a, r, g, b>>.     *)
@@ -211,6 +213,89 @@ Admissible(img, m, flt, mode, x0, y0, n, rows, px) ==
         \A j \in 1..rows, i \in 1..n : PixelOK(img, m, flt, mode, x0 + i - 1, y0 + j - 1, px[j][i])
 
 (* ---------------------------------------------------------------------------------------- *)
+(* the wide (floating point) pipeline: wide destination formats and operators that need a   *)
+(* division evaluate the same samples in floating point.  The position, the neighbours and  *)
+(* the repeat mapping are exactly as above; the arithmetic is not bit-exact:                 *)
+(*   - bilinear: floating point evaluation may keep more of the fraction than 7 bits: any   *)
+(*     weight that truncates to the 7-bit weight is admissible, i.e. the value lies between *)
+(*     the blends at the corners of [w7/128, (w7+1)/128] x [w7'/128, (w7'+1)/128];          *)
+(*   - convolutions: the exact total, clamped;                                              *)
+(*   - plus one step of the coarser of 8 bits and the destination's channel depth for the   *)
+(*     floating point evaluation and the narrowing to the destination format.               *)
+(* WideInterval: per channel <<lo, hi>> in units of 1/65536 of an 8-bit step.               *)
+
+MinOf4(a, b, c, d) == LET m1 == IF a < b THEN a ELSE b  m2 == IF c < d THEN c ELSE d IN IF m1 < m2 THEN m1 ELSE m2
+MaxOf4(a, b, c, d) == LET m1 == IF a > b THEN a ELSE b  m2 == IF c > d THEN c ELSE d IN IF m1 > m2 THEN m1 ELSE m2
+
+\* blend with horizontal weight fx/4096 and vertical weight fy/1024: units of 2^-22 step
+WBlend(tl, tr, bl, br, fx, fy) ==
+    (tl * (4096 - fx) + tr * fx) * (1024 - fy) + (bl * (4096 - fx) + br * fx) * fy
+
+WideBilinear(img, mode, p, q) ==
+    LET w7x == ((p - Half) \div 512) % 128   w7y == ((q - Half) \div 512) % 128
+        x1 == BilinearIdx(p)     y1 == BilinearIdx(q)
+        tl == PixelAt(img, mode, x1, y1)      tr == PixelAt(img, mode, x1 + 1, y1)
+        bl == PixelAt(img, mode, x1, y1 + 1)  br == PixelAt(img, mode, x1 + 1, y1 + 1)
+    IN [c \in 1..4 |->
+          LET v00 == WBlend(tl[c], tr[c], bl[c], br[c], w7x * 32, w7y * 8)
+              v10 == WBlend(tl[c], tr[c], bl[c], br[c], (w7x + 1) * 32, w7y * 8)
+              v01 == WBlend(tl[c], tr[c], bl[c], br[c], w7x * 32, (w7y + 1) * 8)
+              v11 == WBlend(tl[c], tr[c], bl[c], br[c], (w7x + 1) * 32, (w7y + 1) * 8)
+          IN <<MinOf4(v00, v10, v01, v11) \div 64, (MaxOf4(v00, v10, v01, v11) + 63) \div 64>>]
+
+ClampTotal(t) == IF t < 0 THEN 0 ELSE IF t > 255 * One THEN 255 * One ELSE t
+
+ConvolutionTotal(img, mode, p, q, par) ==
+    LET cw == par[1] \div One   ch == par[2] \div One
+        x1 == KernelStart(p, par[1])  y1 == KernelStart(q, par[2])
+        terms == [k \in 1..(cw * ch) |->
+                    LET i == (k - 1) \div cw  j == (k - 1) % cw  f == par[2 + k] IN
+                    IF f = 0 THEN Transparent ELSE Scale4(PixelAt(img, mode, x1 + j, y1 + i), f)]
+    IN Sum4(terms, cw * ch)
+
+SeparableTotal(img, mode, p, q, par) ==
+    LET cw == par[1] \div One   ch == par[2] \div One
+        xb == par[3] \div One   yb == par[4] \div One
+        pm == PhaseMiddle(p, xb)  qm == PhaseMiddle(q, yb)
+        xbase == 4 + PhaseOf(pm, xb) * cw
+        ybase == 4 + Pow2(xb) * cw + PhaseOf(qm, yb) * ch
+        x1 == KernelStart(pm, cw * One)  y1 == KernelStart(qm, ch * One)
+        terms == [k \in 1..(cw * ch) |->
+                    LET i == (k - 1) \div cw  j == (k - 1) % cw
+                        fy == par[ybase + i + 1]  fx == par[xbase + j + 1] IN
+                    IF fx = 0 \/ fy = 0 THEN Transparent
+                    ELSE Scale4(PixelAt(img, mode, x1 + j, y1 + i), MulRound16(fy, fx))]
+    IN Sum4(terms, cw * ch)
+
+WideInterval(img, flt, mode, p, q) ==
+    CASE flt.f = "nearest"     -> LET v == Nearest(img, mode, p, q) IN [c \in 1..4 |-> <<v[c] * One, v[c] * One>>]
+      [] flt.f = "bilinear"    -> WideBilinear(img, mode, p, q)
+      [] flt.f = "convolution" -> LET t == ConvolutionTotal(img, mode, p, q, flt.params) IN
+                                  [c \in 1..4 |-> <<ClampTotal(t[c]), ClampTotal(t[c])>>]
+      [] flt.f = "separable"   -> LET t == SeparableTotal(img, mode, p, q, flt.params) IN
+                                  [c \in 1..4 |-> <<ClampTotal(t[c]), ClampTotal(t[c])>>]
+
+(* v = observed channel numerators <<a,r,g,b>> over the denominators max (full scale); the     *)
+(* observation in 1/256 step, rounded, must lie within the interval widened by the tolerance   *)
+ObsQ8(v, max) == (v * 65280 + max \div 2) \div max
+StepTol(max) == (IF max >= 255 THEN One ELSE (255 * One) \div max) + 512      \* + the rounding of the observation
+
+WideChannelsOK(iv, v, max) ==
+    \A c \in 1..4 : LET o == ObsQ8(v[c], max[c]) * 256 IN
+                     o >= iv[c][1] - StepTol(max[c]) /\ o <= iv[c][2] + StepTol(max[c])
+
+WidePixelOK(img, m, flt, mode, x, y, v, max) ==
+    IF IsAffine(m)
+    THEN WideChannelsOK(WideInterval(img, flt, mode, AffinePos(m, 1, x, y), AffinePos(m, 2, x, y)), v, max)
+    ELSE LET w == Homog2(m, 3, x, y) IN
+         \E p \in Band(Homog2(m, 1, x, y), w), q \in Band(Homog2(m, 2, x, y), w) :
+             WideChannelsOK(WideInterval(img, flt, mode, p, q), v, max)
+
+WideAdmissible(img, m, flt, mode, x0, y0, n, rows, px, max) ==
+    InDomain(m, x0, y0, n, rows) =>
+        \A j \in 1..rows, i \in 1..n : WidePixelOK(img, m, flt, mode, x0 + i - 1, y0 + j - 1, px[j][i], max)
+
+(* ---------------------------------------------------------------------------------------- *)
 (* actions                                                                                  *)
 
 Init ==
@@ -239,6 +324,12 @@ Fetch(x0, y0, n, rows, px) ==
     \* instead of enumerating every admissible position of every pixel as a separate successor
     /\ Admissible(image, transform, filter, repeat, x0, y0, n, rows, px) = TRUE
     /\ out' = [x0 |-> x0, y0 |-> y0, n |-> n, rows |-> rows, px |-> px]
+    /\ UNCHANGED <<image, transform, filter, repeat>>
+
+(* the same request evaluated by the wide pipeline; px[j][i] = channel numerators over max *)
+FetchWide(x0, y0, n, rows, px, max) ==
+    /\ WideAdmissible(image, transform, filter, repeat, x0, y0, n, rows, px, max) = TRUE
+    /\ out' = [x0 |-> x0, y0 |-> y0, n |-> n, rows |-> rows, px |-> px, max |-> max]
     /\ UNCHANGED <<image, transform, filter, repeat>>
 
 (* Named deviation (known finding C08-solid-ignores-kernel-gain): a 1x1 image with a repeat   *)
